@@ -34,20 +34,20 @@ std::unique_ptr<NodeResult> ReadFileNode::evaluate(PSC::Context &ctx) {
     if (filenameRes->type != PSC::DataType::STRING)
         throw PSC::RuntimeError(token, ctx, "Expected string for file name");
 
-    PSC::Variable *var = ctx.getVariable(identifier.value);
-    if (var == nullptr) {
-        var = new PSC::Variable(identifier.value, PSC::DataType::STRING, false, &ctx);
-        ctx.addVariable(var);
-    }
-    if (var->type != PSC::DataType::STRING)
-        throw PSC::RuntimeError(token, ctx, "Variable of type STRING expected");
-
     auto &filename = filenameRes->get<PSC::String>();
     PSC::File *file = ctx.getFileManager().getFile(filename);
     if (file == nullptr)
         throw PSC::FileNotOpenError(token, ctx, filename.value);
     if (file->getMode() == PSC::FileMode::RANDOM)
         throw PSC::RuntimeError(token, ctx, "Attempting to use 'READFILE' on random file. Use 'GETRECORD' instead.");
+
+    PSC::Variable *var = ctx.getVariable(identifier.value);
+    if (var != nullptr && var->type != PSC::DataType::STRING)
+        throw PSC::RuntimeError(token, ctx, "Variable of type STRING expected");
+    if (var == nullptr) {
+        var = new PSC::Variable(identifier.value, PSC::DataType::STRING, false, &ctx);
+        ctx.addVariable(var);
+    }
     
     PSC::String *data = new PSC::String;
     *data = file->read();
